@@ -22,6 +22,7 @@ type dividerProbe struct {
 	delta   int64
 	outside bool
 	noop    bool
+	onNil   bool
 	all     func() []uint
 	seg     map[string]struct{}
 	order   []string
@@ -46,6 +47,9 @@ func (dp *dividerProbe) divide(priorities []uint, dividend uint, distribution ma
 		dp.order = append(dp.order, key)
 	}
 	fault := idx == dp.faultAt
+	if fault && distribution == nil {
+		dp.onNil = true // the unchecked recomputation of the strategic distribution, not a division made for a round
+	}
 	delta := dp.delta
 	outside := dp.outside
 	dp.mu.Unlock()
@@ -381,6 +385,8 @@ func runPrio1Bubble(sc scenario) result {
 		faultHit = 1
 		if probe.noop {
 			faultHit = 2
+		} else if probe.onNil {
+			faultHit = 3
 		}
 	}
 	nbad := len(probe.bad)
